@@ -535,17 +535,19 @@ func Verif_C22_Errors() {
 func y8(y uint16) uint8 { return uint8(y) }
 
 // c22FixedScenario classifies a fixed-builder program "p initial bytes | u8 | kind{n bytes}" by
-// the two situations in which the unchanged code misbehaves (see known_findings.json, C22):
+// the two situations that used to misbehave (known_findings.json, C22, fixed in 4f257bb and
+// 681cb4c); Verif_C22_FixedNoRoom* select exactly them as regression guards:
 //
 //	1: the length-prefix reservation itself does not fit (the bytes before it do) while the
-//	   child's own writes would still fit: addLengthPrefixed ignores the failed reservation and
-//	   flushChild panics "cryptobyte: internal error" instead of reporting an error;
+//	   child's own writes would still fit (before 4f257bb: addLengthPrefixed ignored the failed
+//	   reservation and flushChild panicked "cryptobyte: internal error");
 //	2: an ASN.1 child of >= 128 bytes fits with the 1-byte length reservation but not with the
-//	   promoted long-form header: flushChild's child.add fails, the error is dropped, the content
-//	   is shifted over its own last bytes and Bytes() returns a truncated element with nil error
-//	   (unless a later write trips the capacity check).
+//	   promoted long-form header (before 681cb4c: flushChild dropped the error of child.add,
+//	   shifted the content over its own last bytes and Bytes() returned a truncated element with
+//	   nil error unless a later write tripped the capacity check).
 //
-// 0 is everything else.
+// 0 is everything else. In both situations the complete output exceeds the capacity, so the
+// required behaviour is an error from Bytes(), no panic.
 func c22FixedScenario(cp, p, kind, n int) int {
 	prefixPos, lenLen := p+1, kind+1
 	if kind == 4 {
@@ -568,9 +570,12 @@ func c22FixedScenario(cp, p, kind, n int) int {
 // minimal ASN.1 length) exceeds the capacity, and nothing panics; otherwise the result has the
 // right size, parses back, and IS the caller's buffer (same first-element address, and a later
 // store through buf is visible through the result), i.e. the builder never reallocated.
-// Only programs in the given scenario (c22FixedScenario) are considered.
+// scenario < 0: every program (nothing excluded); scenario 1, 2: only the programs of that
+// c22FixedScenario class, where additionally Bytes() must return an error.
 func c22Fixed(cp, p, kind, n int, trail bool, scenario int) {
-	verifrt.Assume(c22FixedScenario(cp, p, kind, n) == scenario)
+	if scenario >= 0 {
+		verifrt.Assume(c22FixedScenario(cp, p, kind, n) == scenario)
+	}
 	buf := verifrt.Bytes(cp)
 	pre := append([]byte(nil), buf[:p]...)
 	x, y := verifrt.U8(), verifrt.U16()
@@ -593,6 +598,9 @@ func c22Fixed(cp, p, kind, n int, trail bool, scenario int) {
 		total += 2
 	}
 	verifrt.Assert((err != nil) == (total > cp), "fixed builder: error iff capacity exceeded")
+	if scenario > 0 {
+		verifrt.Assert(err != nil && out == nil, "fixed builder: no room for the length octets => Bytes() returns an error")
+	}
 	if err != nil {
 		verifrt.Assert(out == nil, "error => nil result")
 		verifrt.Reach("fixed-exceeded")
@@ -622,27 +630,28 @@ func c22Fixed(cp, p, kind, n int, trail bool, scenario int) {
 }
 
 // Verif_C22_FixedBuilder: capacity 0..9, initial contents 0..1, all five child kinds, content
-// 0..3 bytes, with/without trailing sibling; scenario 0 only.
+// 0..3 bytes, with/without trailing sibling; every program, nothing excluded.
 func Verif_C22_FixedBuilder() {
 	cp := verifrt.Choose(0, 9)
 	p := verifrt.Choose(0, 1)
 	verifrt.Assume(p <= cp)
-	c22Fixed(cp, p, verifrt.Choose(0, 4), verifrt.Choose(0, 3), verifrt.Choose(0, 1) == 1, 0)
+	c22Fixed(cp, p, verifrt.Choose(0, 4), verifrt.Choose(0, 3), verifrt.Choose(0, 1) == 1, -1)
 }
 
 // Verif_C22_FixedASN1: fixed builder around the ASN.1 127/128 promotion: content 127 or 128
 // bytes (complete output 130 resp. 132 bytes, +2 with the trailing sibling), capacity 129..135;
-// scenario 0 only.
+// every program, nothing excluded (includes 128 bytes at capacity 131 without trailing sibling:
+// the short-form reservation fits, the promoted header does not).
 func Verif_C22_FixedASN1() {
 	n := 127 + verifrt.Choose(0, 1)
 	cp := verifrt.Choose(129, 135)
-	c22Fixed(cp, 0, 4, n, verifrt.Choose(0, 1) == 1, 0)
+	c22Fixed(cp, 0, 4, n, verifrt.Choose(0, 1) == 1, -1)
 }
 
 // Verif_C22_FixedNoRoomForPrefix: scenario 1 of c22FixedScenario, same bounds as
-// Verif_C22_FixedBuilder. On the unchanged tree this is a KNOWN FINDING (panic
-// "cryptobyte: internal error", e.g. NewFixedBuilder(make([]byte,0,2)); AddUint8;
-// AddUint24LengthPrefixed(empty)).
+// Verif_C22_FixedBuilder: Bytes() must return an error and nothing may panic. Regression guard
+// for the defect fixed in 4f257bb (panic "cryptobyte: internal error", e.g.
+// NewFixedBuilder(make([]byte,0,2)); AddUint8; AddUint24LengthPrefixed(empty)).
 func Verif_C22_FixedNoRoomForPrefix() {
 	cp := verifrt.Choose(0, 9)
 	p := verifrt.Choose(0, 1)
@@ -651,9 +660,9 @@ func Verif_C22_FixedNoRoomForPrefix() {
 }
 
 // Verif_C22_FixedNoRoomForASN1Length: scenario 2 of c22FixedScenario: 128-byte ASN.1 child,
-// capacity 131 (= 1 + tag + short-form length + 128). On the unchanged tree this is a KNOWN
-// FINDING (Bytes() returns a 131-byte truncated element and a nil error when nothing is written
-// afterwards).
+// capacity 131 (= 1 + tag + short-form length + 128): Bytes() must return an error. Regression
+// guard for the defect fixed in 681cb4c (Bytes() returned a 131-byte truncated element and a nil
+// error when nothing was written afterwards).
 func Verif_C22_FixedNoRoomForASN1Length() {
 	c22Fixed(131, 0, 4, 128, verifrt.Choose(0, 1) == 1, 2)
 }
